@@ -1,0 +1,34 @@
+//! Verification hooks, only compiled with `--cfg grenad_verif`.
+//!
+//! Re-exports of internal pure functions so that an external harness can run
+//! them directly. Nothing here changes the behaviour of the library.
+
+pub use crate::varint::{varint_decode32, varint_encode32, varint_length_packed};
+
+/// FNV-1a 64-bit hash, used to fingerprint loaded blocks.
+pub fn fnv1a(bytes: &[u8]) -> u64 {
+    let mut h: u64 = 0xcbf29ce484222325;
+    for b in bytes {
+        h ^= *b as u64;
+        h = h.wrapping_mul(0x100000001b3);
+    }
+    h
+}
+
+/// The state of one cached block cursor: the offset recorded for it (index levels only),
+/// the in-block byte offset, and a hash and length of the whole decompressed block buffer.
+#[derive(Debug, Clone, PartialEq, Eq, Hash)]
+pub struct BlockFingerprint {
+    pub recorded_offset: Option<u64>,
+    pub current_offset: Option<usize>,
+    pub buffer_hash: u64,
+    pub buffer_len: usize,
+}
+
+/// The state of a `ReaderCursor`: the index levels from the root down (`None` when the
+/// cursor is not initialised) and the data block cursor.
+#[derive(Debug, Clone, PartialEq, Eq, Hash)]
+pub struct CursorFingerprint {
+    pub index: Option<Vec<BlockFingerprint>>,
+    pub data: Option<BlockFingerprint>,
+}
